@@ -11,3 +11,86 @@ package cert
 //@   uses names.smt2
 //@   abstracts (err == nil) <==> isOidStr(s)
 //@   abstracts err == nil ==> oidv(oid) == parseOid(s)
+
+// ---- tables (C01, C02, C05)
+//@ func tables
+//@   props C01 C02 C05
+//@   uses x509.smt2 keys.smt2
+//@   ensures @C01,C02 forall a in [0, 8) :: has(sigAlgOids, a) && sigAlgOids[a] != nil && oidv(sigAlgOids[a]) == specSigOid(a)
+//@   ensures @C05 forall a in [0, 14) :: has(keyTypes, a) && keyTypes[a] == (if a <= 3 then 0 else 1)
+//@   ensures @C02 snMax != nil && BigVal(snMax) == pow2(159)
+
+// resolveAlg: hash, hash object, signature OID and key type of each of the eight algorithms (RFC 3279/4055/5758)
+//@ func resolveAlg returns (hid, h, oid, kt, err)
+//@   props C01 C02
+//@   uses x509.smt2
+//@   given oidv(oidRSAWithSHA1) == specSigOid(0) && oidv(oidRSAWithSHA256) == specSigOid(1) && oidv(oidRSAWithSHA384) == specSigOid(2) && oidv(oidRSAWithSHA512) == specSigOid(3) && oidv(oidECDSAWithSHA1) == specSigOid(4) && oidv(oidECDSAWithSHA256) == specSigOid(5) && oidv(oidECDSAWithSHA384) == specSigOid(6) && oidv(oidECDSAWithSHA512) == specSigOid(7)
+//@   given oidRSAWithSHA1 != nil && oidRSAWithSHA256 != nil && oidRSAWithSHA384 != nil && oidRSAWithSHA512 != nil && oidECDSAWithSHA1 != nil && oidECDSAWithSHA256 != nil && oidECDSAWithSHA384 != nil && oidECDSAWithSHA512 != nil
+//@   ensures @C01,C02 (err == nil) <==> (0 <= alg && alg <= 7)
+//@   ensures @C01 err == nil ==> hid == specHashId(alg) && h != nil && hashAlgOf(h) == specHashId(alg) && HashData(h) == #bempty && kt == specKeyType(alg)
+//@   ensures @C01,C02 err == nil ==> oid != nil && oidv(oid) == specSigOid(alg)
+
+// Sign: the certificate returned carries the TBS that was signed; issuer DN, algorithm identifiers, extensions in
+// builder order; everything else of the TBS untouched (C01, C02, C06, C19).
+//@ func (*CertificateContext).Sign returns (res, err)
+//@   props C01 C02 C06 C19
+//@   uses x509.smt2
+//@   let TBS0 = old(deref(c.TbsCertificate))
+//@   let INNERNIL = old(c.TbsCertificate.SignatureAlgorithm.Algorithm) == nil
+//@   requires c != nil && c.TbsCertificate != nil
+//@   given forall a in [0, 8) :: has(sigAlgOids, a) && sigAlgOids[a] != nil && oidv(sigAlgOids[a]) == specSigOid(a)
+//@   ensures err == nil ==> res != nil && fresh(res)
+//@   ensures err != nil ==> res == nil
+//@   ensures @C01 err == nil ==> res.TBSCertificate.Issuer == old(c.Issuer.IssuerDn)
+//@   ensures @C01 err == nil ==> (if specKeyType(alg) == 1 then ecdsaVerify(unboxRef(old(c.Issuer.PrivateKey)), digest(specHashId(alg), der(deep(res.TBSCertificate))), bytes(res.SignatureValue.Bytes)) else rsaVerify(unboxRef(old(c.Issuer.PrivateKey)), specHashId(alg), digest(specHashId(alg), der(deep(res.TBSCertificate))), bytes(res.SignatureValue.Bytes)))
+//@   ensures @C01 err == nil ==> (if specKeyType(alg) == 1 then typeis(old(c.Issuer.PrivateKey), "*crypto/ecdsa.PrivateKey") else typeis(old(c.Issuer.PrivateKey), "*crypto/rsa.PrivateKey"))
+//@   ensures @C01,C02 err == nil ==> 0 <= alg && alg <= 7 && oidv(res.SignatureAlgorithm.Algorithm) == specSigOid(alg)
+//@   ensures @C02,C19 err == nil ==> (if INNERNIL then oidv(res.TBSCertificate.SignatureAlgorithm.Algorithm) == specSigOid(alg) else res.TBSCertificate.SignatureAlgorithm == TBS0.SignatureAlgorithm)
+//@   ensures @C02 err == nil && INNERNIL ==> res.SignatureAlgorithm.Parameters == res.TBSCertificate.SignatureAlgorithm.Parameters
+//@   ensures @C02 err == nil ==> (if specKeyType(alg) == 0 then res.SignatureAlgorithm.Parameters.Class == 0 && res.SignatureAlgorithm.Parameters.Tag == 5 && !res.SignatureAlgorithm.Parameters.IsCompound && len(res.SignatureAlgorithm.Parameters.Bytes) == 0 && len(res.SignatureAlgorithm.Parameters.FullBytes) == 0 else res.SignatureAlgorithm.Parameters.Class == 0 && res.SignatureAlgorithm.Parameters.Tag == 0 && len(res.SignatureAlgorithm.Parameters.Bytes) == 0 && len(res.SignatureAlgorithm.Parameters.FullBytes) == 0)
+//@   ensures @C06,C01 err == nil ==> len(res.TBSCertificate.Extensions) == len(old(c.Extensions)) && (forall k in [0, len(old(c.Extensions))) :: res.TBSCertificate.Extensions[k] == compileRes(old(c.Extensions[k]), c))
+//@   ensures @C19,C03,C04 err == nil ==> res.TBSCertificate.Version == TBS0.Version && res.TBSCertificate.SerialNumber == TBS0.SerialNumber && res.TBSCertificate.Validity == TBS0.Validity && res.TBSCertificate.Subject == TBS0.Subject && res.TBSCertificate.PublicKey == TBS0.PublicKey && res.TBSCertificate.IssuerUniqueId == TBS0.IssuerUniqueId && res.TBSCertificate.SubjectUniqueId == TBS0.SubjectUniqueId
+//@   ensures @C02 err == nil ==> res.SignatureValue.BitLength == 8 * len(res.SignatureValue.Bytes)
+//@   loop 1
+//@     invariant 0 <= idx && idx <= len(c.Extensions)
+//@     invariant @C06,C01 forall k in [0, idx) :: out.TBSCertificate.Extensions[k] == compileRes(old(c.Extensions[k]), c)
+
+// ---- certificate context (C02, C03, C04, C05, C14)
+//@ func NewCertificateContext returns (ctx)
+//@   props C02 C03 C04
+//@   uses keys.smt2 time.smt2
+//@   given snMax != nil && BigVal(snMax) == pow2(159)
+//@   ensures ctx != nil && fresh(ctx) && ctx.TbsCertificate != nil && fresh(ctx.TbsCertificate) && ctx.Issuer != nil && fresh(ctx.Issuer)
+//@   ensures @C02 ctx.TbsCertificate.Version == 2
+//@   ensures @C02,C03 ctx.TbsCertificate.SerialNumber != nil && fresh(ctx.TbsCertificate.SerialNumber) && 0 <= BigVal(ctx.TbsCertificate.SerialNumber) && BigVal(ctx.TbsCertificate.SerialNumber) < pow2(159)
+//@   ensures @C03 subject != nil ==> ctx.TbsCertificate.Subject == subject
+//@   ensures @C04 ctx.TbsCertificate.Validity.NotBefore == utc(validNotBefore) && ctx.TbsCertificate.Validity.NotAfter == utc(validNotAfter)
+//@   ensures ctx.Extensions == ext && ctx.PrivateKey == nil && ctx.TbsCertificate.SignatureAlgorithm.Algorithm == nil
+//@   ensures ctx.TbsCertificate.IssuerUniqueId.Bytes == nil && ctx.TbsCertificate.SubjectUniqueId.Bytes == nil && len(ctx.TbsCertificate.Extensions) == 0
+//@   ensures ctx.TbsCertificate.SignatureAlgorithm.Parameters.Class == 0 && ctx.TbsCertificate.SignatureAlgorithm.Parameters.Tag == 0 && len(ctx.TbsCertificate.SignatureAlgorithm.Parameters.Bytes) == 0 && len(ctx.TbsCertificate.SignatureAlgorithm.Parameters.FullBytes) == 0
+
+//@ func AsIssuer returns (i)
+//@   props C01
+//@   requires c.TbsCertificate != nil
+//@   ensures @C01 i.PublicKeyRaw == c.TbsCertificate.PublicKey.PublicKey.Bytes && i.IssuerDn == c.TbsCertificate.Subject && i.PrivateKey == c.PrivateKey
+
+//@ func (*CertificateContext).SetIssuer
+//@   props C01
+//@   requires ctx != nil && ctx.TbsCertificate != nil
+//@   assigns ctx.Issuer; ctx.TbsCertificate.Issuer
+//@   ensures @C01 ctx.Issuer != nil && fresh(ctx.Issuer) && deref(ctx.Issuer) == issuerCtx && ctx.TbsCertificate.Issuer == issuerCtx.IssuerDn
+
+// SetPrivateKey / GeneratePrivateKey: the context's key and its SubjectPublicKeyInfo (abstract for now: spkiDeep)
+//@ func (*CertificateContext).SetPrivateKey returns (err)
+//@   props C05 C14
+//@   uses keys.smt2
+//@   requires ctx != nil && ctx.TbsCertificate != nil
+//@   assigns ctx.PrivateKey; ctx.TbsCertificate.PublicKey
+//@   abstracts err == nil ==> ctx.PrivateKey == key && deep(ctx.TbsCertificate.PublicKey) == spkiDeep(key)
+
+//@ func (*CertificateContext).GeneratePrivateKey returns (err)
+//@   props C05
+//@   uses keys.smt2
+//@   requires ctx != nil && ctx.TbsCertificate != nil
+//@   assigns ctx.PrivateKey; ctx.TbsCertificate.PublicKey
+//@   abstracts err == nil ==> ctx.PrivateKey != nil && keyAlgOf(ctx.PrivateKey) == keyAlg && deep(ctx.TbsCertificate.PublicKey) == spkiDeep(ctx.PrivateKey)
